@@ -16,8 +16,17 @@ PATHS = ["/a", "/a b", "/x=y", "/é"]
 PORTS = [80, 8080, 65535]
 
 
+# variables that are set in the environment of the test process itself (a developer machine behind a
+# proxy): only what the configuration names may reach pack / docker, and with the configured value
+HOST_ENV = {"HTTPS_PROXY": "http://host-proxy:1", "https_proxy": "http://host-proxy:2", "HTTP_PROXY": "http://host-proxy:3", "http_proxy": "http://host-proxy:4",
+            "NO_PROXY": "host.example", "no_proxy": "host.example", "DOCKER_HOST": "unix:///host.sock", "CNB_PLATFORM_API": "0.13", "K": "host-value-of-K"}
+
+
 def env_maps():
     out = [[]]
+    for k in ("HTTPS_PROXY", "no_proxy", "DOCKER_HOST"):
+        out.append([[k, "configured"]])
+    out.append([["HTTPS_PROXY", "configured"], ["HTTP_PROXY", ""]])
     for v in T:
         out.append([["K", v]])
     for v1, v2 in itertools.product(T, repeat=2):
@@ -120,7 +129,7 @@ def run_cfg(arg):
         res["preprocessor_effective"] = b2["preprocessor"]
         res["mounts_effective"] = c["mounts"]
 
-    r = run_scenario(root, sc, layout=layout, post=post)
+    r = run_scenario(root, sc, layout=layout, post=post, host_env=HOST_ENV)
     r["root"] = root
     shutil.rmtree(root, ignore_errors=True)
     return r
@@ -308,7 +317,7 @@ def run(ctx):
     res.cov("evaluations", len(cfgs) + len(pairs) + pk)
     res.cov("distinct_nontrivial", len(cfgs) - 2)
     res.cov("distinct_outcomes", len(shapes))
-    res.cov("rule", "configurations = each field varied over its full domain against defaults (builder over 9 strings; env maps of <=2 keys x 10 value strings incl. '', leading dashes, spaces, '=', Unicode, shell metacharacters; buildpack lists of length <=3; relative/absolute app dir; preprocessor; entrypoint None+10 strings; commands of <=2 elements; all port subsets of {80,8080,65535}; <=2 bind mounts over 4 synthetic paths plus existing sources: a directory, a symlink to it and a redundant spelling of it, up to 3 at once); build+rebuild pairs incl. every pair of preprocessor settings {none, A, B} with the app content pack saw judged per build and, in thorough, all pairs of fields over thinned domains; each run through the real TestRunner with stand-in CLIs; plus 5 sets of on-the-fly packaged references (current crate, workspace buildpacks, a composite, overlapping dependency closures) x both expectations in a really compiled generated workspace; the logged argv is decoded with reference parsers and compared with the configuration; non-trivial = non-default configurations")
+    res.cov("rule", "configurations = each field varied over its full domain against defaults (builder over 9 strings; env maps of <=2 keys x 10 value strings incl. '', leading dashes, spaces, '=', Unicode, shell metacharacters, and keys that are also set (differently) in the test process's own environment (proxy variables, DOCKER_HOST, K); buildpack lists of length <=3; relative/absolute app dir; preprocessor; entrypoint None+10 strings; commands of <=2 elements; all port subsets of {80,8080,65535}; <=2 bind mounts over 4 synthetic paths plus existing sources: a directory, a symlink to it and a redundant spelling of it, up to 3 at once); build+rebuild pairs incl. every pair of preprocessor settings {none, A, B} with the app content pack saw judged per build and, in thorough, all pairs of fields over thinned domains; each run through the real TestRunner with stand-in CLIs; plus 5 sets of on-the-fly packaged references (current crate, workspace buildpacks, a composite, overlapping dependency closures) x both expectations in a really compiled generated workspace; the logged argv is decoded with reference parsers and compared with the configuration; non-trivial = non-default configurations")
     res.cov("exhaustive", True)
     res.sample({"build": cfgs[3][0], "container": cfgs[3][1]})
     res.sample({"build": cfgs[len(cfgs) // 2][0], "container": cfgs[len(cfgs) // 2][1]})
